@@ -301,9 +301,20 @@ class Walker(object):
                 and isinstance(e.value, ast.Name)
                 and e.value.id == self.self_name)
 
+    def fenv(self):
+        """folding environment of the codec's own scope: module names, and
+        the class itself under a classmethod's first parameter"""
+        fe = Env(self.fi.module)
+        fi = self.fi
+        if getattr(fi, 'cls', None) is not None and fi.kind == 'class' \
+                and fi.params:
+            from .fold import ClassVal
+            fe.vars[fi.params[0]] = ClassVal(fi.cls)
+        return fe
+
     def fold_const(self, e):
         try:
-            v = self.F.eval(e, Env(self.fi.module))
+            v = self.F.eval(e, self.fenv())
         except (AnalysisError, FoldRaise):
             return None
         return None if isinstance(v, Opaque) else v
@@ -315,7 +326,7 @@ class Walker(object):
         if isinstance(t, ast.Call) and isinstance(t.func, ast.Attribute) and \
                 t.func.attr.startswith('protocol_') and \
                 self.is_ctx(t.func.value):
-            args = [self.F.eval(a, Env(self.fi.module)) for a in t.args]
+            args = [self.F.eval(a, self.fenv()) for a in t.args]
             fv = self.F.getattr(self.ctx, t.func.attr, t, self.fi.module)
             return bool(self.F.call(fv, args, {}, t, Env(self.fi.module)))
         if self.is_ctx(t):
@@ -786,6 +797,16 @@ class Walker(object):
             if nxt is None:
                 raise self.err('super().%s does not resolve' % meth, e)
             return self.inline(nxt, e, st)
+        # a method of the codec's own class called on a local instance of it
+        # (`record = cls(); record._fill(file_object)`): part of this codec
+        cs = self.sites.get(id(e))
+        own = self.fi.cls
+        if cs is not None and own is not None and isinstance(recv, ast.Name):
+            insts = set(t[1] for t in cs.recv_types if t[0] == 'inst')
+            if insts == {own} and len(cs.recv_types) == len(insts):
+                target = self.db.find_method(own, meth)
+                if target is not None and target.kind == 'instance':
+                    return self.inline(target, e, st)
         return self.helper_token(e, st)
 
     def read_token(self, codec, binding, e, st):
